@@ -387,8 +387,10 @@ func (store *HStore) Set(ki *KeyInfo, p *Payload) error {
 	bkt := store.buckets[ki.BucketID]
 	atomic.AddInt64(&bkt.NumSet, 1)
 	if bkt.State != BUCKET_STAT_READY {
-		cmem.DBRL.SetData.SubSizeAndCount(p.CArray.Cap)
-		p.CArray.Free()
+		if p.Ver >= 0 { // a delete carries no buffer that was ever accounted
+			cmem.DBRL.SetData.SubSizeAndCount(p.CArray.Cap)
+			p.CArray.Free()
+		}
 		return nil
 	}
 
@@ -409,6 +411,7 @@ func (store *HStore) Incr(ki *KeyInfo, value int) int {
 	ki.Prepare()
 	bkt := store.buckets[ki.BucketID]
 	if bkt.State != BUCKET_STAT_READY {
+		cmem.DBRL.SetData.SubCount(1)
 		return 0
 	}
 	return bkt.incr(ki, value)
